@@ -4,7 +4,7 @@
 From Coq Require Import ZArith List Bool Lia.
 Require Import Bits.Lib.Result Bits.Lib.Bytes Bits.Model.Ecmath Bits.Model.Sec1 Bits.Model.Der
   Bits.Proofs.Ecmath Bits.Proofs.Ecdsa Bits.Proofs.EcdsaMore Bits.Proofs.EcdsaNonce Bits.Proofs.SigVerify
-  Bits.Spec.Bip66 Bits.Proofs.Der Bits.Proofs.SmallCurves Bits.Proofs.SmallCurvesBig.
+  Bits.Spec.Bip66 Bits.Proofs.Der Bits.Proofs.SmallCurves.
 Import ListNotations.
 Local Open Scope Z_scope.
 
@@ -62,10 +62,9 @@ Proof. exact ensure_low_s_spec. Qed.
 Print Assumptions C02_low_s_helper.
 
 Theorem C02_premises_hold_on_small_curves :
-  (curve_facts 43 0 7 31 G43 /\ curve_facts_x 43 0 7 31 G43) /\
-  (curve_facts 79 0 7 67 G79 /\ curve_facts_x 79 0 7 67 G79) /\
-  (curve_facts 67 0 7 79 G67 /\ curve_facts_x 67 0 7 79 G67).
-Proof. exact (conj (conj facts_43 facts_x_43) (conj (conj facts_79 facts_x_79) (conj facts_67 facts_x_67))). Qed.
+  curve_facts 43 0 7 31 G43 /\ curve_facts_x 43 0 7 31 G43.
+Proof. exact (conj facts_43 facts_x_43). Qed.
+(* the same for (p, n) = (79, 67) and (67, 79): Props/SmallCurvesAll.v (minutes of kernel computation) *)
 
 (* the infinity case: u1 G + u2 Q = infinity is an error (TypeError in the code), not a success *)
 Example C02_ex_infinity_43 :
